@@ -23,7 +23,7 @@ type ErrCase struct {
 	Invoke string `json:"invoke,omitempty"`
 	// Outputs: "files" = standard output and error are regular files (sandbox.Box.FileOutputs)
 	Outputs string `json:"outputs,omitempty"`
-	Src    string `json:"src"`
+	Src     string `json:"src"`
 }
 
 func genErr(t *rapid.T) ErrCase {
